@@ -438,6 +438,7 @@ type Proxy struct {
 	RouteGuard atomic.Int64
 	cancel context.CancelFunc
 	done   chan error
+	https  bool
 
 	mu       sync.Mutex
 	upstream *url.URL
@@ -450,7 +451,12 @@ func (p *Proxy) SetUpstream(u *url.URL) {
 	p.mu.Unlock()
 }
 
-func (p *Proxy) URL() *url.URL { return &url.URL{Scheme: "http", Host: p.Addr} }
+func (p *Proxy) URL() *url.URL {
+	if p.https {
+		return &url.URL{Scheme: "https", Host: p.Addr}
+	}
+	return &url.URL{Scheme: "http", Host: p.Addr}
+}
 
 // StartProxy builds the proxy exactly as cmd/forwarder does for a plain HTTP
 // listener (forwarder.NewHTTPProxy, production transport from
@@ -468,6 +474,10 @@ type ProxyOpts struct {
 	// MITM enables interception of CONNECT tunnels with a self-signed CA (as --mitm does); the
 	// transport then accepts any origin certificate (the scripted TLS origin is self-signed).
 	MITM bool
+	// HTTPSListener makes the proxy listen with TLS (self-signed certificate), i.e. it is an https:// upstream for others.
+	HTTPSListener bool
+	// InsecureUpstreamTLS: accept any certificate of a TLS upstream proxy / origin (the scripted TLS peers are self-signed).
+	InsecureUpstreamTLS bool
 	// Credentials are the site credentials (--credentials) handed to forwarder.NewHTTPProxy.
 	Credentials *forwarder.CredentialsMatcher
 }
@@ -501,6 +511,14 @@ func StartProxyOpts(name string, opts ProxyOpts) (*Proxy, error) {
 		tweak(cfg)
 	}
 	tcfg := forwarder.DefaultHTTPTransportConfig()
+	if opts.HTTPSListener {
+		cfg.Protocol = forwarder.HTTPSScheme
+		cfg.PromRegistry = prometheus.NewRegistry() // the certificate expiry metric needs a registry
+		cfg.PromNamespace = "g01rig_tls"
+	}
+	if opts.InsecureUpstreamTLS {
+		tcfg.TLSClientConfig.Insecure = true
+	}
 	if opts.MITM {
 		cfg.MITM = forwarder.DefaultMITMConfig()
 		cfg.PromRegistry = prometheus.NewRegistry()
@@ -526,7 +544,7 @@ func StartProxyOpts(name string, opts ProxyOpts) (*Proxy, error) {
 	if !ok || len(addrs) == 0 {
 		return nil, errors.New("proxy has no address")
 	}
-	p.HP, p.Addr = hp, addrs[0]
+	p.HP, p.Addr, p.https = hp, addrs[0], opts.HTTPSListener
 	ctx, cancel := context.WithCancel(context.Background())
 	p.cancel = cancel
 	go func() { p.done <- hp.Run(ctx) }()
@@ -554,6 +572,21 @@ func Dial(addr string) (*Client, error) {
 		return nil, err
 	}
 	return &Client{C: c, BR: bufio.NewReaderSize(c, 64<<10)}, nil
+}
+
+// DialTLS connects to a proxy that listens with TLS (certificate not verified).
+func DialTLS(addr string) (*Client, error) {
+	c, err := net.DialTimeout("tcp", addr, 5*time.Second)
+	if err != nil {
+		return nil, err
+	}
+	tc := tls.Client(c, &tls.Config{InsecureSkipVerify: true, NextProtos: []string{"http/1.1"}})
+	c.SetDeadline(time.Now().Add(20 * time.Second))
+	if err := tc.Handshake(); err != nil {
+		c.Close()
+		return nil, err
+	}
+	return &Client{C: tc, BR: bufio.NewReaderSize(tc, 64<<10)}, nil
 }
 
 // DialMITM opens a CONNECT tunnel to target through the proxy and starts TLS inside it
